@@ -162,7 +162,7 @@ func within(limit time.Duration, f func()) bool {
 	select {
 	case <-done:
 		return true
-	case <-time.After(limit):
+	case <-mon.AfterSteps(limit):
 		return false
 	}
 }
@@ -1211,7 +1211,7 @@ func llmnrPairing(nClients, mReq, mode, run int) {
 	select {
 	case <-done:
 		serveReturned = true
-	case <-time.After(progressLimit):
+	case <-mon.AfterSteps(progressLimit):
 	}
 	if !closed || !serveReturned {
 		_, d := libGoroutines("network/llmnr.")
@@ -1266,13 +1266,13 @@ func llmnrCloseFromHandler(trials int) {
 		ok := true
 		select {
 		case <-closeReturned:
-		case <-time.After(progressLimit):
+		case <-mon.AfterSteps(progressLimit):
 			ok = false
 		}
 		if ok {
 			select {
 			case <-done:
-			case <-time.After(progressLimit):
+			case <-mon.AfterSteps(progressLimit):
 				ok = false
 			}
 		}
@@ -1326,7 +1326,7 @@ func llmnrShutdown(trials int) {
 		select {
 		case <-done:
 			ret = true
-		case <-time.After(progressLimit):
+		case <-mon.AfterSteps(progressLimit):
 		}
 		conn.Close()
 		if !closed || !ret {
@@ -1365,7 +1365,7 @@ func llmnrShutdown(trials int) {
 			if err == nil {
 				joined++
 			}
-		case <-time.After(progressLimit):
+		case <-mon.AfterSteps(progressLimit):
 			_, d := libGoroutines("network/llmnr.")
 			viol("shutdown.llmnr.Server:listenandserve-hung", "ListenAndServe did not return after a concurrent Close", map[string]any{"trial": t, "goroutines": d})
 			return
@@ -1413,7 +1413,7 @@ func llmnrSizes() {
 		within(progressLimit, func() { srv.Close() })
 		select {
 		case <-done:
-		case <-time.After(progressLimit):
+		case <-mon.AfterSteps(progressLimit):
 		}
 	}()
 	conn, err := net.DialUDP("udp4", nil, sconn.LocalAddr().(*net.UDPAddr))
